@@ -112,7 +112,9 @@ struct Cfg {
 	int byz_slots;             // number of slots a faulty sender uses (agreement bound without FIFO)
 	std::vector<BMsg> script;  // messages the Byzantine party may emit (event Z k emits script[k])
 	std::vector<std::vector<Ev> > prog;   // per party program
-	Cfg() : n(3), t(0), fifo(true), byz(-1), byz_slots(1) {}
+	bool script_sequential;    // Byzantine script messages are emitted in script order only (conformance runs)
+	unsigned long cls1, cls2;  // payload values of class 1 / class 2 for the model projection
+	Cfg() : n(3), t(0), fifo(true), byz(-1), byz_slots(1), script_sequential(false), cls1(1000), cls2(7002) {}
 };
 
 struct Deliv { int sender; std::string value; std::string chan; };
@@ -477,7 +479,8 @@ struct World {
 				r.push_back(m[i]);
 		}
 		if (script_as_events)
-			for (size_t k = 0; k < cfg.script.size(); k++) if (!script_used[k]) r.push_back(Ev{'Z', (int)k, 0, 0});
+			for (size_t k = 0; k < cfg.script.size(); k++)
+				if (!script_used[k]) { r.push_back(Ev{'Z', (int)k, 0, 0}); if (cfg.script_sequential) break; }
 		return r;
 	}
 
@@ -610,6 +613,84 @@ struct World {
 		}
 		return o;
 	}
+	// ---- projection shared with models/rbc.pml (dump_state): one slot (sender S, slot 1) of the base channel ------------
+	template<class T> static auto has_acked(const T &r, const std::string &tag, int) -> decltype((void)r.acked, int()) { return r.acked.count(tag) ? 1 : 0; }
+	template<class T> static int has_acked(const T &, const std::string &, long) { return 0; }
+	int cls_of_value(const std::string &v) const { return v == num62(cfg.cls1) ? 1 : (v == num62(cfg.cls2) ? 2 : 9); }
+	int cls_of_digest(const std::string &d) const { return d == dig1 ? 1 : (d == dig2 ? 2 : 9); }
+	static std::string num62(unsigned long v) { mpz_t t; mpz_init_set_ui(t, v); std::string r = zstr(t); mpz_clear(t); return r; }
+	std::string dig1, dig2, ptag;
+	void init_projection(int sender)
+	{
+		mpz_t a, b, c, h;
+		mpz_init(a), mpz_init(b), mpz_init(c), mpz_init(h);
+		mpz_set_ui(a, cfg.cls1), tmcg_mpz_shash(h, 1, a), dig1 = zstr(h);
+		mpz_set_ui(a, cfg.cls2), tmcg_mpz_shash(h, 1, a), dig2 = zstr(h);
+		// tag of (ID, sender, slot 1) exactly as TagMessage computes it
+		int hp = 0;
+		while (!cfg.honest[hp]) hp++;
+		mpz_set(a, rbc[hp]->ID), mpz_set_ui(b, sender), mpz_set_ui(c, 1);
+		if (!cfg.fifo && cfg.honest[sender])
+		{
+			// without FIFO the slot number of an honest sender is the (steered) 256-bit draw of Broadcast()
+			unsigned char sb[32];
+			memset(sb, 0, sizeof sb);
+			sb[0] = 0x5a, sb[1] = (unsigned char)sender, sb[31] = 1;
+			mpz_import(c, 32, 1, 1, 1, 0, sb);
+		}
+		tmcg_mpz_shash(h, 3, a, b, c);
+		std::stringstream ss;
+		ss << h;
+		ptag = ss.str();
+		mpz_clear(a), mpz_clear(b), mpz_clear(c), mpz_clear(h);
+	}
+	std::string project() const
+	{
+		std::string o;
+		char buf[128];
+		for (int p = 0; p < cfg.n; p++)
+		{
+			if (!cfg.honest[p]) { o += "#byz "; continue; }
+			const CachinKursawePetzoldShoupRBC &r = *rbc[p];
+			const std::vector<RBC_TagCheck> *fl[5] = {&r.send, &r.echo, &r.ready, &r.request, &r.answer};
+			const char *nm = "SERQA";
+			o += "#";
+			for (int f = 0; f < 5; f++)
+			{
+				o += nm[f];
+				for (int l = 0; l < cfg.n; l++) o += (*fl[f])[l].count(ptag) ? "1" : "0";
+			}
+			int e[3] = {0, 0, 0}, rr[3] = {0, 0, 0};
+			std::map<std::string, RBC_TagCount>::const_iterator ei = r.e_d.find(ptag), ri = r.r_d.find(ptag);
+			if (ei != r.e_d.end()) for (RBC_TagCount::const_iterator k = ei->second.begin(); k != ei->second.end(); ++k) { int c = cls_of_digest(mpzstr_to62(k->first)); if (c < 3) e[c] += (int)k->second; }
+			if (ri != r.r_d.end()) for (RBC_TagCount::const_iterator k = ri->second.begin(); k != ri->second.end(); ++k) { int c = cls_of_digest(mpzstr_to62(k->first)); if (c < 3) rr[c] += (int)k->second; }
+			int mb = 0, db = 0;
+			RBC_TagMpz::const_iterator mi = r.mbar.find(ptag), di = r.dbar.find(ptag);
+			if (mi != r.mbar.end()) mb = cls_of_value(zstr(mi->second));
+			if (di != r.dbar.end()) db = cls_of_digest(zstr(di->second));
+			int nd = (int)delivered[p].size(), dv = nd ? cls_of_value(delivered[p][0].value) : 0;
+			snprintf(buf, sizeof buf, "e%d,%dr%d,%dm%dd%dk%dc%dv%d ", e[1], e[2], rr[1], rr[2], mb, db, has_acked(r, ptag, 0), nd, dv);
+			o += buf;
+		}
+		for (int a = 0; a < cfg.n; a++)
+			for (int b = 0; b < cfg.n; b++)
+			{
+				if (net.q[a][b].empty()) continue;
+				o += "L" + drv::str(a) + ">" + drv::str(b) + ":";
+				for (size_t i = 0; i < net.q[a][b].size(); i++)
+				{
+					const NMsg &x = net.q[a][b][i];
+					int act = atoi(x.f[3].c_str());   // actions 1..8 are single base-62 digits
+					int c = (act == 1 || act == 5) ? cls_of_value(x.f[4]) : cls_of_digest(x.f[4]);
+					o += drv::str(act) + "." + drv::str(c) + ",";
+				}
+				o += " ";
+			}
+		return o;
+	}
+	// keys of e_d / r_d are decimal-free strings produced by operator<< (base 62): already the zstr form
+	static std::string mpzstr_to62(const std::string &s) { return s; }
+
 	static uint64_t hash64(const std::string &s, uint64_t seed)
 	{
 		uint64_t h = 1469598103934665603ULL ^ seed;
@@ -647,6 +728,22 @@ static inline std::string chan_id(const Cfg &cfg)
 	CachinKursawePetzoldShoupRBC r(cfg.n, cfg.t, 0, &a, aiounicast::aio_scheduler_roundrobin, 0);
 	r.setID(CHAN_NAMES[0], cfg.fifo);
 	return zstr(r.ID);
+}
+// slot number (base-62 string) of the first broadcast of `sender` in the base channel as the harness steers it
+static inline std::string first_slot(const Cfg &cfg, int sender)
+{
+	mpz_t c;
+	mpz_init_set_ui(c, 1);
+	if (!cfg.fifo && cfg.honest[sender])
+	{
+		unsigned char sb[32];
+		memset(sb, 0, sizeof sb);
+		sb[0] = 0x5a, sb[1] = (unsigned char)sender, sb[31] = 1;
+		mpz_import(c, 32, 1, 1, 1, 0, sb);
+	}
+	std::string r = zstr(c);
+	mpz_clear(c);
+	return r;
 }
 static inline std::string digest_of(unsigned long value)
 {
